@@ -253,7 +253,7 @@ Qed.
 Lemma first_line_refuted (compress : enc -> bytes -> bytes) (p : bytes) :
   let c := {| q_disable := false; q_ae := []; q_range := []; q_head := false |} in
   let r := {| r_ce := [bs "gzip"; bs "gzip"]; r_clh := []; r_other := []; r_cl := (-1)%Z; r_unc := false;
-              r_body := Raw (compress Gzip (compress Gzip p)) |} in
+              r_body := Raw (compress Gzip (compress Gzip p)); r_short := false |} in
   forall st,
   (r_ce (respond_first_line st c false false r) = [] /\
    r_body (respond_first_line st c false false r) = Lazy Gzip (compress Gzip (compress Gzip p))) /\
@@ -270,6 +270,7 @@ Definition stream_of (dec : codec) (r : rd) : stream :=
   match r with
   | RPlain rem => {| s_data := rem; s_end := EOF |}
   | RLazy e w => dec e w
+  | RLazyCut e w => cut_stream e (dec e w)
   | RRun rem fin => {| s_data := rem; s_end := fin |}
   | RNil => {| s_data := []; s_end := ErrNilBody |}
   end.
@@ -296,11 +297,14 @@ Lemma read_size_independent dec r sizes :
   fst (drain dec sizes r) = (s_data (stream_of dec r), Some (s_end (stream_of dec r))).
 Proof.
   intros Hpos Hlen. destruct sizes as [|n rest]; [simpl in Hlen; lia|].
-  destruct r as [rem|e w|rem fin|].
+  destruct r as [rem|e w|e w|rem fin|].
   - change (drain dec (n :: rest) (RPlain rem)) with (drain dec (n :: rest) (RRun rem EOF)).
     rewrite drain_run by assumption. reflexivity.
   - change (drain dec (n :: rest) (RLazy e w))
       with (drain dec (n :: rest) (RRun (s_data (dec e w)) (s_end (dec e w)))).
+    rewrite drain_run by assumption. reflexivity.
+  - change (drain dec (n :: rest) (RLazyCut e w))
+      with (drain dec (n :: rest) (RRun (s_data (cut_stream e (dec e w))) (s_end (cut_stream e (dec e w))))).
     rewrite drain_run by assumption. reflexivity.
   - rewrite drain_run by assumption. reflexivity.
   - reflexivity.
@@ -338,15 +342,17 @@ Section Codec.
   Lemma decoded_is_original st c auto r e p sizes :
     r_cl r <> 0%Z ->
     wants_decode c auto (content_encoding (r_ce r)) = Some e ->
-    r_body r = Raw (compress e p) ->
+    r_body r = Raw (compress e p) -> r_short r = false ->
     Forall (fun n => 0 < n) sizes -> length p < length sizes ->
     let r' := respond st c auto false r in
-    fst (drain dec sizes (open_body (r_body r'))) = (p, Some EOF) /\
+    fst (drain dec sizes (open_resp r')) = (p, Some EOF) /\
     r_ce r' = [] /\ r_clh r' = [] /\ r_cl r' = (-1)%Z /\ r_unc r' = true /\
     r_other r' = r_other r.
   Proof.
-    intros Hcl Hw Hb Hpos Hlen. cbv zeta. rewrite respond_spec by exact Hcl. rewrite Hw.
-    cbn [delivered rewrite r_body r_ce r_clh r_cl r_unc r_other open_body]. rewrite Hb. cbn [wire_of].
+    intros Hcl Hw Hb Hs Hpos Hlen. cbv zeta. rewrite respond_spec by exact Hcl. rewrite Hw.
+    unfold open_resp.
+    cbn [delivered rewrite r_body r_ce r_clh r_cl r_unc r_other r_short open_body]. rewrite Hb, Hs.
+    cbn [wire_of].
     repeat split.
     rewrite read_size_independent; cbn [stream_of]; rewrite ?roundtrip; cbn [s_data s_end]; auto.
   Qed.
@@ -355,22 +361,91 @@ Section Codec.
   Lemma decode_error_surfaces st c auto r e sizes :
     r_cl r <> 0%Z ->
     wants_decode c auto (content_encoding (r_ce r)) = Some e ->
+    r_short r = false ->
     Forall (fun n => 0 < n) sizes ->
     length (s_data (dec e (wire_of (r_body r)))) < length sizes ->
-    fst (drain dec sizes (open_body (r_body (respond st c auto false r)))) =
+    fst (drain dec sizes (open_resp (respond st c auto false r))) =
       (s_data (dec e (wire_of (r_body r))), Some (s_end (dec e (wire_of (r_body r))))).
   Proof.
-    intros Hcl Hw Hpos Hlen. rewrite respond_spec by exact Hcl. rewrite Hw.
-    cbn [delivered rewrite r_body open_body].
+    intros Hcl Hw Hs Hpos Hlen. rewrite respond_spec by exact Hcl. rewrite Hw.
+    unfold open_resp. cbn [delivered rewrite r_body r_short open_body]. rewrite Hs.
     rewrite read_size_independent; cbn [stream_of]; auto.
   Qed.
 End Codec.
+
+(* ---------- a body that ends short of its declared Content-Length ---------- *)
+
+(* the length check of the framing layer survives every decision *)
+Lemma length_check_survives st c auto ended r :
+  r_short (respond st c auto ended r) = r_short r.
+Proof.
+  unfold respond. destruct (decide st c auto ended r); reflexivity.
+Qed.
+
+(* every reader waits for the end of the message below it (withMessageEnd / gzip multistream) *)
+Lemma every_reader_meets_the_message_end e : probes_past_end e = true.
+Proof. reflexivity. Qed.
+
+Lemma cut_stream_end_probing e s :
+  probes_past_end e = true -> s_end (cut_stream e s) <> EOF.
+Proof.
+  intros Hp. unfold cut_stream. destruct (s_end s) eqn:E; cbn [s_end]; try rewrite Hp; try rewrite E; discriminate.
+Qed.
+
+Lemma cut_stream_data e s : s_data (cut_stream e s) = s_data s.
+Proof. unfold cut_stream. destruct (s_end s); reflexivity. Qed.
+
+(* decoded + short: for every coding every read schedule ends with an error - never a clean io.EOF - after exactly the
+   bytes decodable from what arrived; wherever the cut falls (also on a member boundary, also before
+   the first byte) and on every stack *)
+Lemma short_decoded_is_error (dec : codec) st c auto r e sizes :
+  r_cl r <> 0%Z ->
+  wants_decode c auto (content_encoding (r_ce r)) = Some e ->
+  r_short r = true ->
+  Forall (fun n => 0 < n) sizes ->
+  length (s_data (dec e (wire_of (r_body r)))) < length sizes ->
+  exists x, x <> EOF /\
+    fst (drain dec sizes (open_resp (respond st c auto false r))) =
+      (s_data (dec e (wire_of (r_body r))), Some x).
+Proof.
+  intros Hcl Hw Hs Hpos Hlen. pose proof (every_reader_meets_the_message_end e) as Hp.
+  rewrite respond_spec by exact Hcl. rewrite Hw.
+  unfold open_resp. cbn [delivered rewrite r_body r_short]. rewrite Hs.
+  exists (s_end (cut_stream e (dec e (wire_of (r_body r))))). split.
+  - now apply cut_stream_end_probing.
+  - rewrite read_size_independent; cbn [stream_of]; rewrite ?cut_stream_data; auto.
+Qed.
+
+(* untouched + short: the bytes that arrived, then the framing error *)
+Lemma short_untouched_is_error (dec : codec) st c auto ended r w sizes :
+  wants_decode c auto (content_encoding (r_ce r)) = None ->
+  r_body r = Raw w -> r_short r = true ->
+  Forall (fun n => 0 < n) sizes -> length w < length sizes ->
+  fst (drain dec sizes (open_resp (respond st c auto ended r))) = (w, Some ErrShort).
+Proof.
+  intros Hw Hb Hs Hpos Hlen. rewrite respond_none by exact Hw.
+  unfold open_resp. rewrite Hs, Hb. rewrite read_size_independent; cbn [stream_of s_data s_end]; auto.
+Qed.
+
+(* a rewrite that switches the length check off for decoded bodies (NOT the code) hands out the
+   first gzip member of a body cut on the member boundary with a clean io.EOF *)
+Definition id_codec0 : codec := fun _ w => {| s_data := w; s_end := EOF |}.
+Definition r_cut_example : resp :=
+  {| r_ce := [bs "gzip"]; r_clh := [bs "8"]; r_other := []; r_cl := 8%Z; r_unc := false;
+     r_body := Raw (bs "aaaa"); r_short := true |}.
+Lemma unchecked_rewrite_refuted :
+  let c := {| q_disable := false; q_ae := []; q_range := []; q_head := false |} in
+  fst (drain id_codec0 [9; 9] (open_resp (rewrite_unchecked r_cut_example (Lazy Gzip (bs "aaaa"))))) =
+    (bs "aaaa", Some EOF) /\
+  fst (drain id_codec0 [9; 9] (open_resp (respond H2 c false false r_cut_example))) =
+    (bs "aaaa", Some ErrShort).
+Proof. vm_compute. split; reflexivity. Qed.
 
 (* ---------- the pinned code ---------- *)
 
 Definition r_example : resp :=
   {| r_ce := [bs "identity"]; r_clh := [bs "5"]; r_other := []; r_cl := 5%Z; r_unc := false;
-     r_body := Raw (bs "hello") |}.
+     r_body := Raw (bs "hello"); r_short := false |}.
 
 Lemma pinned_refuted :
   (* HTTP/1 (and HTTP/2, same text): unsupported coding under AutoDecompression *)
